@@ -565,8 +565,9 @@ func (s *State) evalIndexRangeExpression(left object.Object, leftIdx, rightIdx a
 	if l > r {
 		return s.NewError("range index invalid: left greater then right")
 	}
-	l = min(l, int64(num))
-	r = min(r, int64(num))
+	// clamp to [0, num] (a negative index further than the start is the start).
+	l = max(min(l, int64(num)), 0)
+	r = max(min(r, int64(num)), 0)
 	switch left.Type() {
 	case object.STRING:
 		str := left.(object.String).Value
